@@ -1,4 +1,6 @@
 use super::decoder::LF;
+
+const CR: u8 = b'\r';
 use super::resp::{AdvanceIndex, ArrayIndex, BulkStrIndex, DataIndex, IndexedResp, RespIndex};
 use btoi::btoi;
 use bytes::BytesMut;
@@ -108,6 +110,13 @@ fn parse_bulk_str(buf: &[u8]) -> Result<(BulkStrIndex, usize), ParseError> {
         return Err(ParseError::NotEnoughData);
     }
 
+    // The content must be followed by CRLF.
+    if buf.get(consumed + content_size) != Some(&CR)
+        || buf.get(consumed + content_size + 1) != Some(&LF)
+    {
+        return Err(ParseError::InvalidProtocol);
+    }
+
     let s = DataIndex(consumed, consumed + content_size);
     Ok((BulkStrIndex::Str(s), consumed + content_size + 2))
 }
@@ -127,9 +136,12 @@ fn parse_line(buf: &[u8]) -> Result<(DataIndex, usize), ParseError> {
     if lf_index == 0 {
         return Err(ParseError::InvalidProtocol);
     }
+    // The line must be terminated by CRLF.
+    if buf.get(lf_index - 1) != Some(&CR) {
+        return Err(ParseError::InvalidProtocol);
+    }
 
     // s >= 2
-    // Just ignore the CR
     let line = DataIndex(0, lf_index + 1 - 2);
     Ok((line, lf_index + 1))
 }
